@@ -19,14 +19,15 @@ type c16Conn struct {
 	DelayMs  int    `json:"reply_delay_ms"`
 	Stanzas  int    `json:"stanzas_after"`
 	Trailing bool   `json:"stanzas_right_behind_the_reply,omitempty"` // the server goes on sending in the same write, whatever it answered
-	EndBy    string `json:"session_ended_by,omitempty"` // how an established session ends before the next connection: close | cut
+	EndBy    string `json:"session_ended_by,omitempty"`               // how an established session ends before the next connection: close | cut
 }
 
 type c16Scenario struct {
-	Secret  string    `json:"secret"`
-	Conns   []c16Conn `json:"connections"` // the same Component connects again after each session
-	Seg     int       `json:"segmentation"`
-	Latency int64     `json:"latency_ns"`
+	ReconnectOnStreamError bool      `json:"application_reconnects_on_stream_errors_other_than_conflict,omitempty"` // what the library's StreamManager does for clients
+	Secret                 string    `json:"secret"`
+	Conns                  []c16Conn `json:"connections"` // the same Component connects again after each session
+	Seg                    int       `json:"segmentation"`
+	Latency                int64     `json:"latency_ns"`
 }
 
 var textAlphabet = []string{"a", "b", "Z", "0", "9", "-", "_", ".", " ", "&", "<", ">", "\"", "'", "]]>", "é", "ü", "✓", "日本", "\t", "/", "@", ":", "=", "%", "+", " ", "𝔘",
@@ -81,6 +82,7 @@ func runC16(e *Engine, g G, o RunOpt) RunInfo {
 		c.EndBy = []string{"close", "cut"}[g.N("endby", 2)]
 		sc.Conns = append(sc.Conns, c)
 	}
+	sc.ReconnectOnStreamError = g.Pct("reconnect-on-stream-error", 25)
 	sc.Seg, sc.Latency = netModes(g, e)
 
 	var scripts []NegScript
@@ -165,6 +167,14 @@ func runC16(e *Engine, g G, o RunOpt) RunInfo {
 		w.CatchAll()
 		if err := w.Create(); err != nil {
 			return
+		}
+		if sc.ReconnectOnStreamError {
+			w.OnEvent = func(ev xmpp.Event) {
+				if xmpp.VerifEventState(ev) == xmpp.StateStreamError && ev.StreamError != "conflict" {
+					err := w.Comp.Resume()
+					e.Logf("app.reconnect", "Resume from the StreamError callback: %v", err)
+				}
+			}
 		}
 		msg := 0
 		for i, c := range sc.Conns {
